@@ -125,13 +125,15 @@ def make_topo(oid, fill_case, tiers=("quick", "thorough")):
     """Grid.from_topology(node_lon, node_lat, fn, fill_value, start_index): fill_case in
     {'none' (no padding, fill_value=None), 'minus1', 'std' (INT_FILL_VALUE), 'big' (999999)}"""
     n_face, n_max, n_node = 2, 4, 6
-    fillv = {"none": None, "minus1": -1, "std": F, "big": 999999}[fill_case]
+    fillv = {"none": None, "minus1": -1, "std": F, "big": 999999, "zero": 0}[fill_case]      # 'zero': one-based tables padded with 0 (the fill value is a valid zero-based index)
     sizes = [4, 4] if fill_case == "none" else None
 
     def setup(ctx):
         ctx.const("fill_case", fill_case)
         fn, nf = C.sym_face_table(ctx, n_face, n_max, n_node, sizes=sizes)
         b = ctx.int("start_index", 0, 1)
+        if fill_case == "zero":
+            ctx.assume(sc.z(b) == 1)
         lon = _reals(ctx, "lon", n_node, 0, 360)
         lat = _reals(ctx, "lat", n_node, -90, 90)
         return fn, nf, b, lon, lat
@@ -1230,7 +1232,7 @@ def make_sniff(oid):
 
 
 def obligations(tier):
-    obs = [make_topo(f"C01.topo.{c}", c) for c in ("none", "minus1", "std", "big")]
+    obs = [make_topo(f"C01.topo.{c}", c) for c in ("none", "minus1", "std", "big", "zero")]
     for si in ("absent", "0", "1"):
         for fc, dt in (("minus1", "int64"), ("std", "int64"), ("big", "int32"), ("absent", "int32"), ("minus1", "float64"), ("nan", "float64")):
             quick = (si, fc, dt) in [("absent", "minus1", "int64"), ("1", "std", "int64"), ("1", "big", "int32"), ("0", "absent", "int32"), ("1", "nan", "float64"),
